@@ -232,7 +232,16 @@ Section Gen.
     | EProcEnter _ _ | EProcReturn _ _ | EForceQuit | ENewLoopEnter _ => true
     | _ => false
     end.
-  Hypothesis G_ev : forall s e, neutral e = true -> Inv s -> Inv (emit e s) /\ R s (emit e s).
+  (* the events the induction itself emits "in passing" (execute_new_loop's own event is G_newloop's) *)
+  Definition neutral0 (e : event) : bool :=
+    match e with
+    | ERunEnter | EQuitCb _ | ERunReturn | EDispatchEnd _ | ENewLoopReturn _ | EClosePop _
+    | EProcEnter _ _ | EProcReturn _ _ => true
+    | _ => false
+    end.
+  Lemma neutral0_neutral e : neutral0 e = true -> neutral e = true.
+  Proof. destruct e; cbn; congruence. Qed.
+  Hypothesis G_ev : forall s e, neutral0 e = true -> Inv s -> Inv (emit e s) /\ R s (emit e s).
   Hypothesis G_kill : forall s, Inv s -> D (emit EKill s).
   Hypothesis G_unwind : forall s h sid, D s -> D (emit (EHandlerEnd h sid (Some XSysExit)) s).
 
@@ -3193,7 +3202,7 @@ Section Scr.
     - apply Rk_trans.
     - apply G_same.
     - apply G_same_sig.
-    - intros s e. apply G_ev.
+    - intros s e NE. apply G_ev, neutral0_neutral, NE.
     - apply G_kill.
     - apply G_unwind.
     - apply G_pop.
